@@ -132,7 +132,7 @@ func (d *Drv) checkStats() {
 	if s.Locked != (m.Locks > 0) {
 		d.viol("C19", "stats-locked", "Locked=%v with %d open queries", s.Locked, m.Locks)
 	}
-	want := d.Cfg.Fillers + u.N
+	want := d.Cfg.Fillers + u.N + m.Late
 	if len(s.ComponentTypes) != want || len(s.ComponentTypeNames) != want {
 		d.viol("C19", "stats-components", "ComponentTypes=%d names=%d, registered %d", len(s.ComponentTypes), len(s.ComponentTypeNames), want)
 	}
